@@ -81,6 +81,7 @@ class DBusProperty:
                 self.interface,
                 {self.pname: value},
                 [],
+                interface='org.freedesktop.DBus.Properties',
             )
 
     def __delete__(self, instance):
